@@ -2,6 +2,9 @@ package checks
 
 import (
 	"fmt"
+	"strings"
+
+	"github.com/AsaiYusuke/jsonpath"
 
 	"verif/h/gen"
 	"verif/h/impl"
@@ -62,10 +65,32 @@ func c01Oracle(j *productJob, c *run.Ctx, pc *pathCase, di, m int, out *spec.Out
 		c.Nontrivial++
 	}
 	ok, kind, detail := c01Judge(out, res)
+	if ok && di%61 == 0 {
+		// the one-shot wrapper Retrieve(path, doc, config) must agree with Parse(path)(doc): checked on
+		// every 61st document of every path (a fixed sub-bound, not a sample)
+		rr := retrieveOnce(pc.r.Text, j.ds.docs[m][di], j.env)
+		c.Add("retrieve_wrapper_compared", 1)
+		if rr.ErrType != res.ErrType || rr.ErrMsg != res.ErrMsg || !sameValues(rr.Values, res.Values) || rr.Panic != "" {
+			ok, kind, detail = false, "retrieve-wrapper", fmt.Sprintf("Retrieve(path, doc) gives %s %s %s, Parse(path)(doc) gives %s %s", show(rr.Values), rr.ErrType, rr.Panic, show(res.Values), res.ErrType)
+		}
+	}
 	if ok {
 		if len(out.Nodes) > 1 {
 			c.Sample(map[string]interface{}{"path": pc.r.Text, "doc": j.ds.text[di], "mode": modeName[m], "result": show(res.Values)})
 		}
+		return
+	}
+	if kind == "retrieve-wrapper" {
+		c.Violate(run.Violation{
+			Sig:    kind + ":" + gen.Shape(pc.p),
+			Detail: fmt.Sprintf("%s on %s (%s): %s", pc.r.Text, j.ds.text[di], modeName[m], detail),
+			Size:   len(pc.r.Text)*100 + len(j.ds.text[di]),
+			Case: func() map[string]interface{} {
+				cs := caseOfP("C01", pc.p, pc.r.Text, j.ds.text[di], m, "funcs")
+				cs["wrapper"] = true
+				return cs
+			}(),
+		})
 		return
 	}
 	// judge only a fresh evaluation (new Parse, fresh document): DESIGN §5
@@ -83,6 +108,20 @@ func c01Oracle(j *productJob, c *run.Ctx, pc *pathCase, di, m int, out *spec.Out
 		Size:   len(pc.r.Text)*100 + len(j.ds.text[di]),
 		Case:   caseOfP("C01", pc.p, pc.r.Text, j.ds.text[di], m, "funcs"),
 	})
+}
+
+func retrieveOnce(path string, doc interface{}, env *impl.Env) (r impl.CallResult) {
+	defer func() {
+		if e := recover(); e != nil {
+			r.Panic = fmt.Sprint(e)
+		}
+	}()
+	vs, err := jsonpath.Retrieve(path, doc, env.Cfg)
+	r.Values, r.NilVals, r.ErrType = vs, vs == nil, impl.ErrType(err)
+	if err != nil {
+		r.ErrMsg = err.Error()
+	}
+	return
 }
 
 // ---------------------------------------------------------------------------
@@ -213,7 +252,13 @@ func init() {
 					return true, "Parse rejected a supported path: " + pr.ErrType + " " + pr.ErrMsg + pr.Panic
 				}
 				out := spec.Eval(p, doc, env.Model)
-				ok, _, detail := c01Judge(&out, impl.Call(pr.F, doc))
+				res := impl.Call(pr.F, doc)
+				if cs["wrapper"] == true {
+					rr := retrieveOnce(path, doc, env)
+					bad := rr.ErrType != res.ErrType || rr.ErrMsg != res.ErrMsg || !sameValues(rr.Values, res.Values) || rr.Panic != ""
+					return bad, fmt.Sprintf("Retrieve gives %s %s, Parse()() gives %s %s", show(rr.Values), rr.ErrType, show(res.Values), res.ErrType)
+				}
+				ok, _, detail := c01Judge(&out, res)
 				return !ok, detail
 			})
 		},
@@ -288,8 +333,16 @@ func init() {
 		Assumptions: []string{
 			"candidate set = failures the model records at the deepest failing position, restricted to non-type failures when there is one; error text compared verbatim (type, step text as written, expected, found)",
 		},
-		Bounds: productBounds("C15"),
-		New:    func(tier string) run.Job { return newProduct("C15", tier, true, c15Oracle) },
+		Bounds: func() map[string]string {
+			b := productBounds("C15")
+			b["quick"] = strings.Replace(b["quick"], "3..4 steps", "3 steps", 1)
+			return b
+		}(),
+		New: func(tier string) run.Job {
+			j := newProduct("C15", tier, true, c15Oracle)
+			j.units = shallowQuick(tier, j.units)
+			return j
+		},
 		Replay: func(cs map[string]interface{}) (bool, string) {
 			return replayProduct(cs, func(path string, p *gen.Path, doc interface{}, env *impl.Env) (bool, string) {
 				if p == nil {
